@@ -74,6 +74,18 @@ std::vector<dj::beatgrid_marker> beatgrid_from_json(const json& j)
 }
 json waveform_to_json(const std::vector<dj::waveform_entry>& w)
 {
+    if (w.size() > 400000)
+    {
+        // too long to print: length and a digest instead
+        uint64_t h = 1469598103934665603ull;
+        for (auto& e : w)
+            for (uint8_t b : {e.low.value, e.low.opacity, e.mid.value, e.mid.opacity, e.high.value, e.high.opacity})
+            {
+                h ^= b;
+                h *= 1099511628211ull;
+            }
+        return json{{"entries", w.size()}, {"fnv", std::to_string(h)}};
+    }
     std::string raw;
     raw.resize(w.size() * 6);
     for (size_t i = 0; i < w.size(); ++i)
@@ -89,6 +101,27 @@ json waveform_to_json(const std::vector<dj::waveform_entry>& w)
 }
 std::vector<dj::waveform_entry> waveform_from_json(const json& j)
 {
+    if (j.is_object() && j.contains("gen"))
+    {
+        // {"gen": n, "seed": s}: n pseudo-random entries made here (a multi-hour recording has millions of them; sending
+        // them as text would only measure the JSON parser)
+        size_t n = j["gen"].get<size_t>();
+        uint64_t x = j.value("seed", (uint64_t)88172645463325252ull) | 1;
+        std::vector<dj::waveform_entry> w(n);
+        for (size_t i = 0; i < n; ++i)
+        {
+            x ^= x << 13;
+            x ^= x >> 7;
+            x ^= x << 17;
+            w[i].low.value = (uint8_t)x;
+            w[i].low.opacity = 255;
+            w[i].mid.value = (uint8_t)(x >> 8);
+            w[i].mid.opacity = 255;
+            w[i].high.value = (uint8_t)(x >> 16);
+            w[i].high.opacity = 255;
+        }
+        return w;
+    }
     auto raw = js(j);
     std::vector<dj::waveform_entry> w(raw.size() / 6);
     for (size_t i = 0; i < w.size(); ++i)
